@@ -10,7 +10,7 @@
 (* forms for IPv6 (1-4 hex digits per group, one "::" standing for at      *)
 (* least one group, optional trailing dotted quad, optional %zone).        *)
 (***************************************************************************)
-EXTENDS Integers, Sequences, StrOps
+EXTENDS Integers, Sequences, FiniteSets, StrOps
 CONSTANT TMutant     \* 0 = reference; 1 = negative control (trailing colon accepted)
 
 Colon == 58  LBr == 91  RBr == 93  Dot == 46  Pct == 37
@@ -18,11 +18,11 @@ Localhost == <<108, 111, 99, 97, 108, 104, 111, 115, 116>>
 
 \* fields of s separated by byte c (always at least one field)
 Split(s, c) ==
-  LET F[i \in 0..Len(s)] ==
-        IF i = 0 THEN << <<>> >>
-        ELSE IF s[i] = c THEN Append(F[i-1], <<>>)
-        ELSE [F[i-1] EXCEPT ![Len(F[i-1])] = Append(@, s[i])]
-  IN F[Len(s)]
+  LET idx == {i \in 1..Len(s) : s[i] = c}
+      n == Cardinality(idx) + 1
+      P == [k \in 0..n |-> IF k = 0 THEN 0 ELSE IF k = n THEN Len(s) + 1
+                           ELSE CHOOSE i \in idx : Cardinality({j \in idx : j <= i}) = k]
+  IN [k \in 1..n |-> SubSeq(s, P[k-1] + 1, P[k] - 1)]
 
 DecVal(f) == LET F[i \in 0..Len(f)] == IF i = 0 THEN 0 ELSE F[i-1] * 10 + (f[i] - 48) IN F[Len(f)]
 V4Field(f) == /\ Len(f) \in 1..3 /\ \A i \in 1..Len(f) : IsDigit(f[i])
